@@ -23,10 +23,24 @@ def generate(rng, tier, shard, nshards):
             g = fam.permuted(g, rng)
         G, _ = cfg_proj(g)
         base = {"sr": srn, "G": G, "names": names}
+        if gi % 3 == 1:
+            base["pre"] = [rng.choice(["agenda", "treesum", "naive", "agenda_maxiter", "trim", "cnf"]) for _ in range(rng.randint(1, 2))]
+            feat = feat + "+history"
+        elif gi % 3 == 2 and len(G["rules"]) >= 2:
+            base["late"] = rng.randint(1, len(G["rules"]) - 1)      # rules added after a first evaluation
+            feat = feat + "+rules-added-after-evaluation"
         yield gops.event("treesum", dict(base, how="agenda"), site="agenda", feat=feat)
         yield gops.event("treesum", dict(base, how="naive"), site="naive_bottom_up", feat=feat)
         if srn == "Rat":
-            yield gops.event("explen", base, site="expected_length", feat=feat)
+            yield gops.event("explen", {k: v for k, v in base.items() if k not in ("pre", "late")}, site="expected_length", feat=feat)
+    if shard == 0:
+        # many contributions that are individually below the convergence tolerance (large vocabularies):
+        # the total is far above it and must be reported
+        for nrules, w, tol in ((200, [1, 262144], 1e-4), (200, [1, 4096], 1e-3)):
+            G = {"S": "#0", "V": ["a", "b"],
+                 "rules": [{"w": [1, 1], "h": "#0", "b": ["#1", "a"]}] + [{"w": w, "h": "#1", "b": ["b"]}] * nrules}
+            yield gops.event("treesum", {"sr": "Rat", "G": G, "how": "agenda", "tol": tol}, site="agenda(tol)",
+                             feat="many-subtolerance-contributions", timeout=120)
 
 
 def selftests(events, rng):
